@@ -290,7 +290,7 @@ impl<'d> BuildCtx<'d> {
 pub fn build_case(ops: &[Op], drv: Option<&mut Drv>, shared: Arc<Shared>, pool: &Pool, borrow: bool) -> Built {
     let mut drv = drv;
     if let Some(d) = drv.as_mut() {
-        d.ask("new");
+        d.ask(if cfg!(feature = "parallel") { "new" } else { "new nopar" });
     }
     let mut ctx = BuildCtx::new(drv, shared, borrow);
     let mut b = new_builder(pool);
